@@ -417,6 +417,15 @@ func (e *Exec) execCall(fr *Frame, st *State, in ssa.CallInstruction, c *ssa.Cal
 					e.instLemma(cenv, lm, st)
 				}
 				for _, w := range sec.Witness {
+					if identName(w.Expr) == "reached" {
+						// the call site was executed on this path (conditioned on the path)
+						prev, ok := e.siteVars[w.Name]
+						if !ok {
+							prev = vBool("false")
+						}
+						e.siteVars[w.Name] = vBool(e.S.Define("w_"+w.Name, "Bool", sOr(prev.t(), st.reach)))
+						continue
+					}
 					wv := e.evalExpr(cenv, w.Expr)
 					e.siteVars[w.Name] = e.nameVal("w_"+w.Name, wv, wv.T)
 					cenv.vars[w.Name] = e.siteVars[w.Name]
@@ -828,6 +837,21 @@ func hasVar(env *Env, n string) bool { _, ok := env.vars[n]; return ok }
 func (e *Exec) execInvoke(fr *Frame, st *State, in ssa.CallInstruction, c *ssa.CallCommon, rt types.Type) Val {
 	recv := e.val(fr, c.Value, st)
 	e.safety(fr, st, in.(ssa.Instruction), "call", sNot(sEq(recv.t(), "0")), "method call on nil interface "+c.Method.Name())
+	if recv.Origin != "" {
+		e.P.initFieldDecls()
+		if fd := e.P.fdCache[recv.Origin+"/callguard:"+c.Method.Name()]; fd != nil {
+			var T types.Type
+			if sp := e.P.SPkgs[fd.PkgPath]; sp != nil {
+				T = resolveTypeIn(e.P, sp.Pkg, fd.Type)
+			}
+			lk := fieldArrName(T, fd.Args[0]) + "@" + recv.OriginBase
+			name := fmt.Sprintf("callguard:%s.%s.%s:%d", lastSeg(fd.Type), fd.Field, c.Method.Name(), localOrdinal(fr.fn, in.(ssa.Instruction), "call"))
+			if !fr.top {
+				name = fr.site + "/" + fnKey(fr.fn) + "#" + name
+			}
+			e.oblige(st, name, "discipline", fd.Tags, boolStr(st.held[lk]), fmt.Sprintf("%s.%s.%s must be called with %s held", fd.Type, fd.Field, c.Method.Name(), fd.Args[0]), in.Pos())
+		}
+	}
 	args := append([]Val{recv}, e.callArgs(fr, st, c)...)
 	if fc := e.P.ifaceMethodContract(c.Value.Type(), c.Method.Name()); fc != nil {
 		name := shortPkg(fc.PkgPath) + "." + lastSeg(fc.Recv.Type) + "." + c.Method.Name()
